@@ -1,3 +1,539 @@
 package main
 
-func c06(seed uint64, n int, casesFile string) {}
+// C06: real client and server ends of gopcua talk through a frame-recording TCP proxy.
+//   server : uacp.Listen(ctx, url, ack) + Accept + uasc.NewServerSecureChannel (scripted: answers every ReadRequest
+//            with a ReadResponse whose size the request asks for) -- server.Server always listens with
+//            uacp.DefaultServerACK, so configurable server limits need the scripted server
+//   client : uacp.Dialer{ClientACK}.Dial + uasc.NewSecureChannel + Open + SendRequestWithTimeout
+//   proxy  : parses the 8-byte UACP header of every frame in both directions, records (type, size), forwards
+// One request/response exchange per connection; message body sizes are chosen around the resulting limits.
+
+import (
+	"bufio"
+	"context"
+	"encoding/binary"
+	"encoding/json"
+	"errors"
+	"fmt"
+	"io"
+	"net"
+	"os"
+	"strings"
+	"sync"
+	"time"
+
+	"github.com/gopcua/opcua/ua"
+	"github.com/gopcua/opcua/uacp"
+	"github.com/gopcua/opcua/uasc"
+
+	"verifharness/internal/rng"
+)
+
+type lim struct {
+	Recv      uint32 `json:"recv"`
+	Send      uint32 `json:"send"`
+	MaxMsg    uint32 `json:"maxmsg"`
+	MaxChunks uint32 `json:"maxchunks"`
+}
+
+func (l lim) ack() *uacp.Acknowledge {
+	return &uacp.Acknowledge{ReceiveBufSize: l.Recv, SendBufSize: l.Send, MaxMessageSize: l.MaxMsg, MaxChunkCount: l.MaxChunks}
+}
+
+type c06case struct {
+	ID     int    `json:"id"`
+	Class  string `json:"class"`
+	Client lim    `json:"client"`
+	Server lim    `json:"server"`
+	// size in bytes of the encoded service message (TypeID + service structure) to send in each direction
+	ReqMsg  int `json:"req_msg"`
+	RespMsg int `json:"resp_msg"`
+
+	// observations
+	Hello      *lim `json:"hello,omitempty"` // as seen on the wire
+	Ack        *lim `json:"ack,omitempty"`
+	ClientConn *lim `json:"client_conn,omitempty"` // accessors of the two uacp.Conn after the handshake
+	ServerConn *lim `json:"server_conn,omitempty"`
+	ClientPeer *lim `json:"client_peer,omitempty"` // limits for sending: what the peer announced (maxmsg, maxchunks)
+	ServerPeer *lim `json:"server_peer,omitempty"`
+
+	C2S         []uint32 `json:"c2s"` // sizes of the MSG chunks of the request on the wire
+	S2C         []uint32 `json:"s2c"`
+	ReqOnWire   int      `json:"req_on_wire"`  // sum of body bytes of the request chunks seen on the wire
+	RespOnWire  int      `json:"resp_on_wire"` // same for the response
+	ReqArrived  bool     `json:"req_arrived"`  // server-side Receive returned the request (right size)
+	RespArrived bool     `json:"resp_arrived"` // client handler got the response (right size)
+	ClientErr   string   `json:"client_err,omitempty"`
+	ServerRecv  string   `json:"server_recv_err,omitempty"`
+	ServerSend  string   `json:"server_send_err,omitempty"`
+	DialErr     string   `json:"dial_err,omitempty"`
+	Setup       string   `json:"setup_error,omitempty"`
+}
+
+// ---------------------------------------------------------------------------------------------------------
+// proxy
+
+type frameRec struct {
+	typ  string
+	size uint32
+}
+
+type proxy struct {
+	ln       net.Listener
+	upstream string
+	mu       sync.Mutex
+	c2s, s2c []frameRec
+	hello    []byte
+	ack      []byte
+	wg       sync.WaitGroup
+}
+
+func newProxy(upstream string) (*proxy, error) {
+	ln, err := net.Listen("tcp", "127.0.0.1:0")
+	if err != nil {
+		return nil, err
+	}
+	p := &proxy{ln: ln, upstream: upstream}
+	go func() {
+		for {
+			c, err := ln.Accept()
+			if err != nil {
+				return
+			}
+			u, err := net.Dial("tcp", upstream)
+			if err != nil {
+				c.Close()
+				continue
+			}
+			p.wg.Add(2)
+			go p.pump(c, u, true)
+			go p.pump(u, c, false)
+		}
+	}()
+	return p, nil
+}
+
+func (p *proxy) pump(from, to net.Conn, c2s bool) {
+	defer p.wg.Done()
+	defer to.(*net.TCPConn).CloseWrite()
+	hdr := make([]byte, 8)
+	for {
+		if _, err := io.ReadFull(from, hdr); err != nil {
+			return
+		}
+		size := binary.LittleEndian.Uint32(hdr[4:])
+		if size < 8 || size > 1<<26 {
+			to.Write(hdr)
+			io.Copy(to, from)
+			return
+		}
+		body := make([]byte, size-8)
+		if _, err := io.ReadFull(from, body); err != nil {
+			to.Write(hdr)
+			return
+		}
+		p.mu.Lock()
+		r := frameRec{string(hdr[:3]), size}
+		if c2s {
+			p.c2s = append(p.c2s, r)
+			if r.typ == "HEL" {
+				p.hello = body
+			}
+		} else {
+			p.s2c = append(p.s2c, r)
+			if r.typ == "ACK" {
+				p.ack = body
+			}
+		}
+		p.mu.Unlock()
+		if _, err := to.Write(append(hdr[:8:8], body...)); err != nil {
+			return
+		}
+	}
+}
+
+func limFromWire(b []byte) *lim {
+	if len(b) < 20 {
+		return nil
+	}
+	return &lim{Recv: binary.LittleEndian.Uint32(b[4:]), Send: binary.LittleEndian.Uint32(b[8:]),
+		MaxMsg: binary.LittleEndian.Uint32(b[12:]), MaxChunks: binary.LittleEndian.Uint32(b[16:])}
+}
+
+func connLim(c *uacp.Conn) *lim {
+	return &lim{Recv: c.ReceiveBufSize(), Send: c.SendBufSize(), MaxMsg: c.MaxMessageSize(), MaxChunks: c.MaxChunkCount()}
+}
+
+// ---------------------------------------------------------------------------------------------------------
+// messages of a chosen encoded size
+
+func chanCfg() *uasc.Config {
+	return &uasc.Config{SecurityPolicyURI: ua.SecurityPolicyURINone, SecurityMode: ua.MessageSecurityModeNone,
+		Lifetime: 3600000, RequestTimeout: 1500 * time.Millisecond}
+}
+
+func mkRequest(pad int, respMsg int) *ua.ReadRequest {
+	return &ua.ReadRequest{
+		MaxAge:             float64(respMsg),
+		TimestampsToReturn: ua.TimestampsToReturnNeither,
+		NodesToRead:        []*ua.ReadValueID{{NodeID: ua.NewStringNodeID(1, strings.Repeat("n", pad)), AttributeID: ua.AttributeIDValue, DataEncoding: &ua.QualifiedName{}}},
+	}
+}
+
+func mkResponse(handle uint32, pad int) *ua.ReadResponse {
+	dv := &ua.DataValue{Value: ua.MustVariant(make([]byte, pad)), EncodingMask: ua.DataValueValue}
+	return &ua.ReadResponse{
+		ResponseHeader: &ua.ResponseHeader{Timestamp: time.Unix(1700000000, 0), RequestHandle: handle, ServiceDiagnostics: &ua.DiagnosticInfo{}, StringTable: []string{}, AdditionalHeader: ua.NewExtensionObject(nil)},
+		Results:        []*ua.DataValue{dv},
+	}
+}
+
+// encoded size of TypeID + service with padding 1 (the size is linear in the padding for pad >= 1)
+var reqBase, respBase int
+
+// runExchange performs one connection + one exchange and fills the observations in.
+func runExchange(cs *c06case) {
+	ctx, cancel := context.WithTimeout(context.Background(), 8*time.Second)
+	defer cancel()
+
+	l, err := uacp.Listen(ctx, "opc.tcp://127.0.0.1:0", cs.Server.ack())
+	if err != nil {
+		cs.Setup = err.Error()
+		return
+	}
+	defer l.Close()
+	p, err := newProxy(l.Addr().String())
+	if err != nil {
+		cs.Setup = err.Error()
+		return
+	}
+	defer p.ln.Close()
+
+	reqPad := cs.ReqMsg - reqBase + 1
+	respPad := cs.RespMsg - respBase + 1
+	if reqPad < 1 {
+		reqPad = 1
+	}
+	if respPad < 1 {
+		respPad = 1
+	}
+
+	// ---- server
+	srvDone := make(chan struct{})
+	var srvMu sync.Mutex
+	go func() {
+		defer close(srvDone)
+		conn, err := l.Accept(ctx)
+		if err != nil {
+			srvMu.Lock()
+			cs.ServerRecv = "accept: " + err.Error()
+			srvMu.Unlock()
+			return
+		}
+		defer conn.Close()
+		srvMu.Lock()
+		cs.ServerConn = connLim(conn)
+		cs.ServerPeer = peerLim(conn)
+		srvMu.Unlock()
+		errch := make(chan error, 8)
+		sc, err := uasc.NewServerSecureChannel("opc.tcp://"+l.Addr().String(), conn, chanCfg(), errch, 7, 1, 9)
+		if err != nil {
+			srvMu.Lock()
+			cs.ServerRecv = "newchannel: " + err.Error()
+			srvMu.Unlock()
+			return
+		}
+		for {
+			msg := sc.Receive(ctx)
+			if msg.Err != nil {
+				srvMu.Lock()
+				if msg.Err != io.EOF && cs.ServerRecv == "" {
+					cs.ServerRecv = classifyC06(msg.Err)
+				}
+				srvMu.Unlock()
+				return
+			}
+			req, ok := msg.Request().(*ua.ReadRequest)
+			if !ok {
+				if msg.Request() == nil { // OPN handled inside Receive
+					continue
+				}
+				if _, ok := msg.Request().(*ua.CloseSecureChannelRequest); ok {
+					return
+				}
+				continue
+			}
+			srvMu.Lock()
+			cs.ReqArrived = len(req.NodesToRead) == 1 && len(req.NodesToRead[0].NodeID.StringID()) == reqPad
+			srvMu.Unlock()
+			resp := mkResponse(req.RequestHeader.RequestHandle, int(req.MaxAge)-respBase+1)
+			if err := sc.SendResponseWithContext(ctx, msg.RequestID, resp); err != nil {
+				srvMu.Lock()
+				cs.ServerSend = classifyC06(err)
+				srvMu.Unlock()
+			}
+		}
+	}()
+
+	// ---- client
+	func() {
+		d := &uacp.Dialer{ClientACK: cs.Client.ack()}
+		url := "opc.tcp://" + p.ln.Addr().String()
+		conn, err := d.Dial(ctx, url)
+		if err != nil {
+			cs.DialErr = classifyC06(err)
+			return
+		}
+		defer conn.Close()
+		cs.ClientConn = connLim(conn)
+		cs.ClientPeer = peerLim(conn)
+		errch := make(chan error, 8)
+		sc, err := uasc.NewSecureChannel(url, conn, chanCfg(), errch)
+		if err != nil {
+			cs.DialErr = "newchannel: " + err.Error()
+			return
+		}
+		if err := sc.Open(ctx); err != nil {
+			cs.DialErr = "open: " + classifyC06(err)
+			return
+		}
+		defer sc.Close()
+		err = sc.SendRequestWithTimeout(ctx, mkRequest(reqPad, cs.RespMsg), nil, 1500*time.Millisecond, func(r ua.Response) error {
+			rr, ok := r.(*ua.ReadResponse)
+			if ok && len(rr.Results) == 1 && rr.Results[0].Value != nil {
+				if b, ok := rr.Results[0].Value.Value().([]byte); ok && len(b) == respPad {
+					cs.RespArrived = true
+				}
+			}
+			return nil
+		})
+		if err != nil {
+			cs.ClientErr = classifyC06(err)
+		}
+	}()
+	l.Close()
+	select {
+	case <-srvDone:
+	case <-time.After(3 * time.Second):
+	}
+	p.ln.Close()
+	time.Sleep(2 * time.Millisecond)
+
+	srvMu.Lock()
+	defer srvMu.Unlock()
+	p.mu.Lock()
+	defer p.mu.Unlock()
+	cs.Hello, cs.Ack = limFromWire(p.hello), limFromWire(p.ack)
+	cs.C2S, cs.S2C = []uint32{}, []uint32{}
+	for _, f := range p.c2s {
+		if f.typ == "MSG" {
+			cs.C2S = append(cs.C2S, f.size)
+			cs.ReqOnWire += int(f.size) - 24
+		}
+	}
+	for _, f := range p.s2c {
+		if f.typ == "MSG" {
+			cs.S2C = append(cs.S2C, f.size)
+			cs.RespOnWire += int(f.size) - 24
+		}
+	}
+}
+
+func classifyC06(err error) string {
+	var sc ua.StatusCode
+	var ne net.Error
+	msg := err.Error()
+	switch {
+	case err == io.EOF || errors.Is(err, io.EOF):
+		return "eof"
+	case errors.Is(err, ua.StatusBadRequestTooLarge):
+		return "refused-request-too-large"
+	case errors.Is(err, ua.StatusBadResponseTooLarge):
+		return "refused-response-too-large"
+	case errors.As(err, &sc) && sc == ua.StatusBadTimeout:
+		return "timeout"
+	case errors.As(err, &ne) && ne.Timeout():
+		return "timeout"
+	case errors.Is(err, context.DeadlineExceeded):
+		return "timeout"
+	case strings.Contains(msg, "uacp: message too large"):
+		return "uacp-too-large"
+	case strings.Contains(msg, "too many chunks"):
+		return "too-many-chunks"
+	case strings.Contains(msg, "message too large"):
+		return "message-too-large"
+	case strings.Contains(msg, "connection reset") || strings.Contains(msg, "broken pipe") || strings.Contains(msg, "closed network"):
+		return "closed"
+	}
+	if len(msg) > 80 {
+		msg = msg[:80]
+	}
+	return "other: " + msg
+}
+
+// calibrate measures the encoded size of the two messages with padding 1.
+func calibrate() error {
+	enc := func(typeID uint16, svc interface{}) (int, error) {
+		b1, err := ua.Encode(ua.NewFourByteExpandedNodeID(0, typeID))
+		if err != nil {
+			return 0, err
+		}
+		b2, err := ua.Encode(svc)
+		return len(b1) + len(b2), err
+	}
+	// the request as newRequestMessage completes it: header with null auth token, timestamp, handle, timeout
+	req := mkRequest(1, 0)
+	req.RequestHeader = &ua.RequestHeader{AuthenticationToken: ua.NewTwoByteNodeID(0), Timestamp: time.Now(), RequestHandle: 1, TimeoutHint: 1500, AdditionalHeader: ua.NewExtensionObject(nil)}
+	n, err := enc(ua.ServiceTypeID(req), req)
+	if err != nil {
+		return err
+	}
+	reqBase = n
+	resp := mkResponse(1, 1)
+	n, err = enc(ua.ServiceTypeID(resp), resp)
+	if err != nil {
+		return err
+	}
+	respBase = n
+	// check the prediction against the wire once, with default limits
+	cs := &c06case{Client: lim{65535, 65535, 0, 0}, Server: lim{65535, 65535, 2097152, 512}, ReqMsg: reqBase + 99, RespMsg: respBase + 999}
+	runExchange(cs)
+	if !cs.ReqArrived || !cs.RespArrived || cs.ReqOnWire != cs.ReqMsg || cs.RespOnWire != cs.RespMsg {
+		b, _ := json.Marshal(cs)
+		return fmt.Errorf("calibration exchange failed (predicted sizes %d/%d): %s", cs.ReqMsg, cs.RespMsg, b)
+	}
+	return nil
+}
+
+// ---------------------------------------------------------------------------------------------------------
+// generator
+
+func pickBuf(r *rng.R) uint32 {
+	return uint32(r.Pick(8192, 8192, 8193, 9000, 16384, 32768, 65535, 65535, 65536, 100000, 1<<20, r.Range(8192, 70000)))
+}
+
+func genC06(r *rng.R, id int) *c06case {
+	cs := &c06case{ID: id}
+	def := lim{65535, 65535, 0, 0}
+	sdef := lim{65535, 65535, 2097152, 512}
+	cs.Client, cs.Server = def, sdef
+	switch id % 8 {
+	case 0:
+		cs.Class = "symmetric-default"
+	case 1: // client buffers smaller than the server's
+		cs.Class = "client-smaller-buffers"
+		cs.Client.Recv, cs.Client.Send = uint32(r.Pick(8192, 9000, 16384, 32768)), uint32(r.Pick(8192, 9000, 16384, 32768))
+	case 2: // server buffers smaller than the client's
+		cs.Class = "server-smaller-buffers"
+		cs.Server.Recv, cs.Server.Send = uint32(r.Pick(8192, 9000, 16384, 32768)), uint32(r.Pick(8192, 9000, 16384, 32768, 65535))
+	case 3: // everything asymmetric
+		cs.Class = "asymmetric-buffers"
+		cs.Client.Recv, cs.Client.Send, cs.Server.Recv, cs.Server.Send = pickBuf(r), pickBuf(r), pickBuf(r), pickBuf(r)
+	case 4: // server message limits
+		cs.Class = "server-message-limits"
+		cs.Server.MaxMsg = uint32(r.Pick(20000, 70000, 200000))
+		cs.Server.MaxChunks = uint32(r.Pick(1, 2, 3, 5))
+		cs.Server.Recv = uint32(r.Pick(8192, 65535))
+	case 5: // client message limits
+		cs.Class = "client-message-limits"
+		cs.Client.MaxMsg = uint32(r.Pick(20000, 70000, 200000))
+		cs.Client.MaxChunks = uint32(r.Pick(1, 2, 3, 5))
+		cs.Client.Recv = uint32(r.Pick(8192, 65535))
+	case 6: // zero = unlimited on the server
+		cs.Class = "server-unlimited"
+		cs.Server.MaxMsg, cs.Server.MaxChunks = uint32(r.Pick(0, 0, 100000)), uint32(r.Pick(0, 0, 4))
+	default:
+		cs.Class = "mixed"
+		cs.Client = lim{pickBuf(r), pickBuf(r), uint32(r.Pick(0, 0, 30000, 100000)), uint32(r.Pick(0, 0, 2, 4))}
+		cs.Server = lim{pickBuf(r), pickBuf(r), uint32(r.Pick(0, 30000, 100000, 2097152)), uint32(r.Pick(0, 2, 4, 512))}
+	}
+	// message sizes around the limits of the configuration
+	around := func(dirSend, dirRecv uint32, maxmsg, maxchunks uint32, base int) int {
+		cands := []int{base + 10, base + 1000}
+		for _, b := range []uint32{dirSend, dirRecv} {
+			body := int(b) - 25
+			cands = append(cands, body-1, body, body+1, 2*body, 2*body+1, 3*body-1)
+			if maxchunks > 0 && maxchunks < 10 {
+				cands = append(cands, int(maxchunks)*body-1, int(maxchunks)*body, int(maxchunks)*body+1, (int(maxchunks)+1)*body+1)
+			}
+		}
+		if maxmsg > 0 && maxmsg <= 300000 {
+			cands = append(cands, int(maxmsg)-1, int(maxmsg), int(maxmsg)+1, int(maxmsg)+5000)
+		}
+		v := cands[r.Intn(len(cands))]
+		if v < base {
+			v = base
+		}
+		if v > 1500000 {
+			v = 1500000
+		}
+		return v
+	}
+	cs.ReqMsg = around(cs.Client.Send, cs.Server.Recv, cs.Server.MaxMsg, cs.Server.MaxChunks, reqBase)
+	cs.RespMsg = around(cs.Server.Send, cs.Client.Recv, cs.Client.MaxMsg, cs.Client.MaxChunks, respBase)
+	if r.Intn(3) == 0 {
+		cs.ReqMsg = reqBase + r.Range(0, 2000) // small request: look at the response direction only
+	}
+	return cs
+}
+
+func c06(seed uint64, n int, casesFile string) {
+	if err := calibrate(); err != nil {
+		fmt.Fprintln(os.Stderr, "uacpharness c06:", err)
+		fmt.Printf("{\"setup_error\": %q}\n", err.Error())
+		os.Exit(3)
+	}
+	var cases []*c06case
+	if casesFile != "" {
+		f, err := os.Open(casesFile)
+		if err != nil {
+			fmt.Fprintln(os.Stderr, err)
+			os.Exit(2)
+		}
+		defer f.Close()
+		sc := bufio.NewScanner(f)
+		sc.Buffer(make([]byte, 1<<20), 1<<26)
+		for sc.Scan() {
+			line := strings.TrimSpace(sc.Text())
+			if line == "" || line[0] != '{' {
+				continue
+			}
+			var in c06case
+			if err := json.Unmarshal([]byte(line), &in); err != nil {
+				fmt.Fprintln(os.Stderr, "bad case:", err)
+				os.Exit(2)
+			}
+			cases = append(cases, &c06case{ID: in.ID, Class: in.Class, Client: in.Client, Server: in.Server, ReqMsg: in.ReqMsg, RespMsg: in.RespMsg})
+		}
+	} else {
+		r := rng.New(seed)
+		for i := 0; i < n; i++ {
+			cases = append(cases, genC06(r, i))
+		}
+	}
+	for _, cs := range cases {
+		if cs.ReqMsg < reqBase {
+			cs.ReqMsg = reqBase
+		}
+		if cs.RespMsg < respBase {
+			cs.RespMsg = respBase
+		}
+	}
+	// run with bounded parallelism; print in order
+	sem := make(chan struct{}, 12)
+	var wg sync.WaitGroup
+	for _, cs := range cases {
+		wg.Add(1)
+		sem <- struct{}{}
+		go func(cs *c06case) {
+			defer wg.Done()
+			defer func() { <-sem }()
+			runExchange(cs)
+		}(cs)
+	}
+	wg.Wait()
+	fmt.Printf("{\"calibration\": {\"req_base\": %d, \"resp_base\": %d}}\n", reqBase, respBase)
+	for _, cs := range cases {
+		enc.Encode(cs)
+	}
+}
